@@ -110,11 +110,15 @@ class Spy:
                 ws |= {i for p, i, _ in before[arg] if p[:len(sub)] == sub}
             for arg in spec["opt"]:
                 ws |= {i for _, i, _ in before[arg]}
+            trained_ids = set()
+            for arg, sub in spec["trained"]:
+                trained_ids |= {i for p, i, _ in before[arg] if p[:len(sub)] == sub}
+            slow_hit = sorted(n[4:] for n in objs if n.startswith("run:") and any(t in n for t in SLOW) and trained_ids & {i for _, i, _ in before[n]})
             changed = {n: [j for j, ((_, _, b), (_, _, c)) in enumerate(zip(before[n], after[n])) if b.shape != c.shape or b.tobytes() != c.tobytes()]
                        for n in objs}
             tchanged = {f"{arg}{'.' + '.'.join(sub) if sub else ''}": any(before[arg][j][0][:len(sub)] == sub for j in changed[arg]) for arg, sub in spec["trained"]}
             self.calls.append(dict(routine=key, context=self.context, objs={n: [(p, i) for p, i, _ in before[n]] for n in objs}, changed=changed, ws=ws,
-                                   trained_changed=tchanged, iteration=None if self.snaps is None else len(self.snaps) - 1))
+                                   trained_changed=tchanged, slow_hit=slow_hit, iteration=None if self.snaps is None else len(self.snaps) - 1))
             return out
         return w
 
@@ -326,6 +330,11 @@ def main(chk):
                     chk.fail(f"C05:{key}:{n.replace('run:', '')}", f"{key} changed a parameter outside the component it trains and its optimizer state",
                              {"routine": key, "called_from": c["context"], "object": n, "path": describe(c, n, j),
                               "documented": {"trained": [list(map(str, t)) for t in SPEC[key]["trained"]], "optimizer": SPEC[key]["opt"]}})
+        if c["slow_hit"]:
+            chk.fail(f"C05:{key}:trains-slow-copy", f"{key} was handed a target network / slow copy of the run as the component to train: the update changes that copy "
+                     "and not the online component it is documented to train", {"routine": key, "called_from": c["context"], "iteration": c["iteration"],
+                                                                               "trained_argument_is_part_of": c["slow_hit"],
+                                                                               "documented": {"trained": [list(map(str, t)) for t in SPEC[key]["trained"]]}})
         # distinct components must not share storage: among the arguments, and among the modules / optimizers of the run
         idsets = {n: {i for _, i in c["objs"][n]} for n in names}
         groups = [[n for n in names if not n.startswith("run:")], [n for n in names if n.startswith("run:")]]
@@ -380,6 +389,20 @@ def main(chk):
             if sr["calls"] >= 2 and n == 0:
                 chk.fail(f"C05:{key}:never-trains", f"{key} never changed {t}, the component it is documented to train, in the {sr['calls']} calls of one training run",
                          {"routine": key, "component": t, "run": ctx})
+    # ---- a delayed actor is still trained: in a run whose critic routine was called at least twice the actor's delay, the actor routine is called
+    PAIRS = {"td3": ("train_step_with_loss", "ddpg_update_actor"), "td3_lap": ("train_step_with_loss", "ddpg_update_actor"),
+             "sac": ("train_step_with_loss", "sac_update_actor"), "td7": ("td7_update_critic", "td7_update_actor")}
+    for case, res_, calls in loop_recs:
+        pair = PAIRS.get(case["routine"])
+        if pair is None or res_.get("exception"):
+            continue
+        n_c, n_a = sum(1 for c in calls if c["routine"] == pair[0]), sum(1 for c in calls if c["routine"] == pair[1])
+        if n_c >= 2 * case["pd"]:
+            chk.count("delayed_actor_runs_checked")
+            if n_a == 0:
+                chk.fail(f"C05:train_{case['routine']}:actor-never-updated", f"{pair[0]} was called {n_c} times in one training run with policy_delay={case['pd']}, "
+                         f"but {pair[1]} never: the actor, a component the training step is documented to train, is never changed",
+                         {"case": case, "critic_update_calls": n_c, "actor_update_calls": n_a})
     for key, missing in sorted(set((k_, tuple(m_)) for k_, m_ in spy.signature_changes)):
         chk.disagree("routine-table", {"routine": key, "what": "its arguments no longer include the documented trained component / optimizer", "missing": list(missing)})
     for key in SPEC:
